@@ -331,17 +331,21 @@ pub fn spec() -> PropSpec {
       },
       Check {
         name: "single-faults",
-        rule: "message/coins of 32, 5 and 41 bytes (coins longer than one 32-byte key block); every byte of the encoded share k x 5 byte faults, plus whole-element replacements of x and y by 0, 1, p-1, the next share's value, the other coordinate, re-decoded; every sequence over {F, h_0..h_t} containing F; through adss::recover and through sta_rs::share_recover; distinct = (share, offset, fault) that still decode",
+        rule: "message/coins of 32, 5, 41 bytes (coins longer than one 32-byte key block) and 200 bytes (longer than one 166-byte cipher block); every byte of the encoded share k x 5 byte faults, plus whole-element replacements of x and y by 0, 1, p-1, the next share's value, the other coordinate, re-decoded; every sequence over {F, h_0..h_t} containing F; through adss::recover and through sta_rs::share_recover; distinct = (share, offset, fault) that still decode",
         gen: |tier| {
           let mut v = vec![];
           let ts: &[u64] = if tier.thorough() { &[1, 2, 3, 4] } else { &[1, 2, 3] };
           for &t in ts {
             for k in [0u64, t] {
-              for (mlen, star) in [(32u64, false), (5, true), (41, false)] {
+              for (mlen, star) in [(32u64, false), (5, true), (41, false), (200, false)] {
                 if !tier.thorough() && (star || mlen == 41) && k != 0 {
                   continue;
                 }
                 if mlen == 41 && t > 2 && !tier.thorough() {
+                  continue;
+                }
+                // message and coins longer than one 166-byte cipher block: one configuration (two in thorough)
+                if mlen == 200 && (t != 2 || (k != 0 && !tier.thorough())) {
                   continue;
                 }
                 let len = 4 + 4 + 48 + 4 + mlen + 4 + mlen + 64;
